@@ -348,3 +348,13 @@ func sameElem(a, b *px.Sym) bool {
 	}
 	return a.Index == b.Index
 }
+
+// isParamOrCell: the parameter itself, or a load of the local cell it was spilled to
+// (parameters captured by closures live in cells).
+func isParamOrCell(s *px.Sym, p *ssa.Parameter) bool {
+	if isParam(s, p) {
+		return true
+	}
+	s = s.Strip(false)
+	return s != nil && s.Kind == px.KLoad && s.X != nil && s.X.Kind == px.KAlloc && allocName(s.X) == p.Name()
+}
